@@ -28,6 +28,9 @@ type c19wCase struct {
 	Transport string `json:"transport"` // "tcp" | "mux"
 	Peer      string `json:"peer"`      // A_leaf | self_signed | B_leaf | A_expired | none
 	Verify    bool   `json:"verify"`
+	// Fault (tcp): the listener's TLS block is broken at start-up: missingCA (file does not exist) | leafOnlyBundle
+	// (bundle without a CA certificate) | badKeyPair (key of another certificate) | noCA (verification on, no CA named)
+	Fault string `json:"fault,omitempty"`
 }
 
 func c19wRun(c c19wCase) (viol string, harness error) {
@@ -64,6 +67,32 @@ func c19wRun(c c19wCase) (viol string, harness error) {
 		if m.Service == "admin" && m.Name == "DescribeCluster" {
 			dc = m
 		}
+	}
+	if c.Transport == "tcp" && c.Fault != "" {
+		switch c.Fault {
+		case "missingCA":
+			srvTLS.RemoteCAPath = dir + "/does-not-exist.pem"
+		case "leafOnlyBundle":
+			srvTLS.RemoteCAPath = ownCert // an end-entity certificate, not a CA
+		case "badKeyPair":
+			_, _, otherK := caA.Leaf("other", 4, "other.example", false)
+			_, srvTLS.KeyPath = vfshared.WritePEM(dir, "otherkey", ownC, otherK)
+		case "noCA":
+			srvTLS.RemoteCAPath = ""
+		}
+		srvTLS.SkipCAVerification = false
+		w, err := vfNewTCPWorld(func(cfg *config.ClusterConnConfig) { cfg.Remote.TcpServer.TLSConfig = srvTLS })
+		if err != nil {
+			return "", nil // refused at start-up: fail closed
+		}
+		defer w.Close()
+		// it came up regardless: then at least nobody without TLS and a valid certificate may get through
+		w.local.Take()
+		_, callErr := vfInvokeT(w.inbound, dc, &adminservice.DescribeClusterRequest{}, nil, 3*time.Second)
+		if seen := len(w.local.Take()); callErr == nil || seen != 0 {
+			return fmt.Sprintf("the remote-facing TCP listener is configured with TLS and CA verification but its TLS block is unusable (%s); the proxy started anyway and served a client that speaks no TLS at all (err=%v, local cluster saw %d calls)", c.Fault, callErr, seen), nil
+		}
+		return "", nil
 	}
 	if c.Transport == "tcp" {
 		w, err := vfNewTCPWorld(func(cfg *config.ClusterConnConfig) { cfg.Remote.TcpServer.TLSConfig = srvTLS })
@@ -134,7 +163,7 @@ func TestVF_C19_Wiring(t *testing.T) {
 	if rp := vfshared.ReplayPart(); rp != "" && rp != part {
 		t.Skip()
 	}
-	st := vfshared.NewStats("C19", part, "really assembled ClusterConnection whose remote-facing listener is TLS-enabled (TCP gRPC server with grpc.Creds; mux receiver behind TLS with a second proxy as establishing peer): peer credential in {valid A leaf, self-signed, foreign CA, expired, none} sent regardless of the CA hint (tcp) / configured on the peer proxy (mux), verification on/off; oracle: the call reaches the recording local cluster iff the credential chains to the configured CA or verification is disabled")
+	st := vfshared.NewStats("C19", part, "really assembled ClusterConnection whose remote-facing listener is TLS-enabled (TCP gRPC server with grpc.Creds; mux receiver behind TLS with a second proxy as establishing peer): peer credential in {valid A leaf, self-signed, foreign CA, expired, none} sent regardless of the CA hint (tcp) / configured on the peer proxy (mux), verification on/off; oracle: the call reaches the recording local cluster iff the credential chains to the configured CA or verification is disabled; plus TCP listeners whose TLS block is unusable at start-up (CA file missing, bundle without a CA certificate, key of another certificate, no CA named): the proxy refuses to start, or at least serves nobody who speaks no TLS")
 	defer st.Flush()
 	run := func(c c19wCase) {
 		t0 := time.Now()
@@ -160,6 +189,9 @@ func TestVF_C19_Wiring(t *testing.T) {
 		}
 		run(c)
 		return
+	}
+	for _, f := range []string{"missingCA", "leafOnlyBundle", "badKeyPair", "noCA"} {
+		run(c19wCase{Transport: "tcp", Peer: "none", Verify: true, Fault: f})
 	}
 	var slow []c19wCase
 	for _, tr := range []string{"tcp", "mux"} {
